@@ -352,10 +352,10 @@ func descriptor(cfg Cfg, reqs []Req) M {
 }
 
 var (
-	basesAll   = []string{"", "/", "/api", "/api/", "api", "/api/v1"}
-	pathsAll   = []string{"", "docs", "ui/docs", "/docs/", "ui"}
-	docsAll    = []string{"", "api.json", "v1/api.json"}
-	specURLs   = []SpecURL{{Kind: "default"}, {Kind: "abspath", Doc: "swagger.json"}, {Kind: "abspath", Dirs: []string{"specs", "v1"}, Doc: "api.json"},
+	basesAll = []string{"", "/", "/api", "/api/", "api", "/api/v1"}
+	pathsAll = []string{"", "docs", "ui/docs", "/docs/", "ui"}
+	docsAll  = []string{"", "api.json", "v1/api.json"}
+	specURLs = []SpecURL{{Kind: "default"}, {Kind: "abspath", Doc: "swagger.json"}, {Kind: "abspath", Dirs: []string{"specs", "v1"}, Doc: "api.json"},
 		{Kind: "absurl", Host: "example.com:8443", Dirs: []string{"specs"}, Doc: "api.json"}, {Kind: "relative", Doc: "swagger.json"},
 		{Kind: "relative", Dirs: []string{"specs"}, Doc: "api.json"}, {Kind: "abspath", Dirs: []string{"specs"}, Doc: ""},
 		{Kind: "abspath", Dirs: []string{"api"}, Doc: "docs"}, {Kind: "absurl", Host: "h", Doc: "swagger.json"}}
@@ -510,9 +510,9 @@ func generate(c *drv.Ctx) {
 // ---- execution -------------------------------------------------------------------
 
 type nextLog struct {
-	called                                        bool
-	sameMethod, sameURL, sameHeader, sameBody     bool
-	samePtr                                       bool
+	called                                    bool
+	sameMethod, sameURL, sameHeader, sameBody bool
+	samePtr                                   bool
 }
 
 func build(cfg Cfg, nl *nextLog, orig, sent **http.Request, sentBody *string, ran *int) (h http.Handler, panicMsg string) {
